@@ -333,7 +333,7 @@ mod verif_nx_pipeline {
         }
         let wide = leak(config(false, 2, 2, false, 200, false));
         let mut n = 0u64;
-        let mut failing: Vec<String> = Vec::new();
+        let mut agg: std::collections::BTreeMap<(&str, String), Vec<u32>> = std::collections::BTreeMap::new();
         for p in &texts {
             let (w, _) = fmt(wide, p, Vec::new());
             let mut prev_lines = usize::MAX;
@@ -341,11 +341,11 @@ mod verif_nx_pipeline {
                 let narrow = leak(config(false, 2, 2, false, limit, false));
                 let (o, _) = fmt(narrow, p, Vec::new());
                 if w.split('\n').all(|l| l.len() as u32 <= limit) && o != w {
-                    failing.push(format!("case=fits_but_differs limit={} input={:?}", limit, p));
+                    agg.entry(("fits_but_differs", p.clone())).or_insert_with(Vec::new).push(limit);
                 }
                 let lines = o.split('\n').count();
                 if lines > prev_lines {
-                    failing.push(format!("case=wider_more_lines limit={} input={:?}", limit, p));
+                    agg.entry(("wider_more_lines", p.clone())).or_insert_with(Vec::new).push(limit);
                 }
                 prev_lines = lines;
                 n += 1;
@@ -353,6 +353,8 @@ mod verif_nx_pipeline {
         }
         println!("NX pipeline_wrap_limit_reflow: {} cases", n);
         assert!(n > 5_000, "enumeration ran");
+        // one line per failing input (all its limits together), so that the list stays readable and complete
+        let failing: Vec<String> = agg.iter().map(|((what, p), limits)| format!("case={} limits={:?} input={:?}", what, limits, p)).collect();
         assert!(failing.is_empty(), "OB pipeline/limit_not_style_after_reflow: a result for a wider limit that already fits the narrower limit is also the result for the narrower limit, and widening never adds lines - also for lines wrapped a second time after a multi-line string was re-indented\n failing cases ({}):\n{}", failing.len(), failing.join("\n"));
     }
 
@@ -413,20 +415,21 @@ mod verif_nx_pipeline {
             }
         }
         let mut n = 0u64;
-        let mut failing: Vec<String> = Vec::new();
+        let mut agg: std::collections::BTreeMap<String, Vec<u32>> = std::collections::BTreeMap::new();
         for p in &texts {
             for limit in 20..=80u32 {
                 let cfg = leak(config(false, 2, 2, false, limit, false));
                 let (o, _) = fmt(cfg, p, Vec::new());
                 let (again, _) = fmt(cfg, &o, Vec::new());
                 if again != o {
-                    failing.push(format!("case=not_idempotent limit={} input={:?}", limit, p));
+                    agg.entry(p.clone()).or_insert_with(Vec::new).push(limit);
                 }
                 n += 1;
             }
         }
         println!("NX pipeline_reflow_idempotent: {} cases", n);
         assert!(n > 3_000, "enumeration ran");
+        let failing: Vec<String> = agg.iter().map(|(p, limits)| format!("case=not_idempotent limits={:?} input={:?}", limits, p)).collect();
         assert!(failing.is_empty(), "OB pipeline/idempotent_after_reflow: formatting the formatter's own output changes nothing - also for lines wrapped a second time after a multi-line string was re-indented\n failing cases ({}):\n{}", failing.len(), failing.join("\n"));
     }
 
@@ -457,7 +460,7 @@ mod verif_nx_pipeline {
                             None => { ok = false; break; }
                         }
                     }
-                    if !ok {
+                    if !ok && !failing.iter().any(|f| f.ends_with(&format!("input={:?}", input))) {
                         failing.push(format!("case=asm_line_changed input={:?}", input));
                     }
                     n += 1;
